@@ -270,7 +270,7 @@ impl Property for C07 {
         std_bounds(tier, 40)
     }
     fn cases(&self, tier: Tier) -> u32 {
-        tier.pick(12_000, 200_000)
+        tier.pick(60_000, 600_000)
     }
     fn strategy(&self, tier: Tier) -> BoxedStrategy<HistCase> {
         stream_hist(tier, 40)
